@@ -75,6 +75,11 @@ def install_tap():
 
 
 def gen_case(rng, idx):
+    if idx == 0 or rng.random() < 0.04:
+        # a flood: far more records outstanding than any bound on the number of queued messages one might think of
+        n = rng.choice([25000, 40000])
+        return {'name': f'c20.case{idx}', 'levels': [20] * n, 'size': 10, 'threshold': 10,
+                'end': rng.choice(['return', 'raise', 'exit3']), 'handler_delay': 0.0001, 'pause_every': 0, 'variant': 'direct'}
     n = rng.choice([0, 1, 2, 4, 8, 30, 100, 300, 1000, 3000])
     size = rng.choice([10, 100, 2000])
     if n * size > 1_500_000:
@@ -219,6 +224,7 @@ def impl_main(argv):
     corpus = json.load(open(rest[0])) if rest else []
     rng = random.Random(seed)
     cases = [c['cfg'] for c in corpus] + [gen_case(rng, i) for i in range(n)]
+    cases.sort(key=lambda c: -len(c['levels']))       # long cases first: they overlap with the short ones
     for i, c in enumerate(cases):
         c['name'] = f'c20.case{i}'
     delays = {c['name']: c['handler_delay'] for c in cases if c.get('handler_delay')}
@@ -260,6 +266,8 @@ def impl_main(argv):
 def coq_case(r):
     from harness.core import clist, cnat, cz
     c, o = r['cfg'], r['obs']
+    if len(c['levels']) > 3000:
+        return '([], 0, [(-1)%Z], [], 1)'        # flood cases are judged by the oracle only (unary numerals in the model)
     fin = 1 if (o['join'] != ['timeout'] and o['exitcode'] is not None and not o.get('crash')) else 0
     reads = o['reads'] if o['reads'] is not None else list(range(len(c['levels']))) + [-1]     # pool / servlet: reads not attributed
     return f"({clist(c['levels'], cnat)}, {cnat(c['threshold'])}, {clist(reads, cz)}, {clist(o['handled'], cnat)}, {cnat(fin)})"
@@ -301,11 +309,12 @@ def check(tier, seed, replay=None):
         for r in rs:
             cov['variants'][r['cfg']['variant']] = cov['variants'].get(r['cfg']['variant'], 0) + 1
             cov['ends'][r['cfg']['end']] = cov['ends'].get(r['cfg']['end'], 0) + 1
+        cov['flood_cases_oracle_only'] = sum(1 for r in rs if len(r['cfg']['levels']) > 3000)
         cov['cases_beyond_pipe_buffer'] = sum(1 for r in rs if len(r['cfg']['levels']) * r['cfg']['size'] > 65536)
 
     return core.generic_check(
         PROP, tier, seed, [part], TRUSTED, ASSUME,
-        rule='random cases: 0-3000 records of 10/100/2000 bytes (up to 1.5 MB, far beyond the 64 kB pipe buffer) with random levels, parent '
+        rule='one flood case per run (25000-40000 short records against a slow parent handler) and random cases: 0-3000 records of 10/100/2000 bytes (up to 1.5 MB, far beyond the 64 kB pipe buffer) with random levels, parent '
              'threshold DEBUG/INFO/WARNING, target ending by return / raise / sys.exit(0) / sys.exit(3) / sys.exit(str), the last record '
              'emitted immediately before the end, optional slow parent handler (pipe backs up) and pauses in the child; mostly a direct '
              'Process, some through a one-worker ProcessPoolExecutor and some through a ProcessServlet worker under a Server; 6 cases run '
